@@ -144,13 +144,18 @@ func Harness_C12_Operation() {
 	o0 := nd.Bool("p0.optional")
 	o1 := nd.Bool("p1.optional")
 	k0 := nd.IntRange("p0.kind", 0, 9)
+	// parameters are processed in name order: either of the two may come first
+	n0, n1 := "p0", "p1"
+	if nd.Bool("first-parameter-sorts-last") {
+		n0 = "z0"
+	}
 	method := []string{"GET", "POST", "PUT", "DELETE", "PATCH"}[nd.IntRange("method", 0, 4)]
 	respKind := nd.IntRange("resp.kind", 0, 9)
 	ep := &syslwrapper.Endpoint{
 		Summary: "s", Description: "d", Path: method + " /things/{id}",
 		Params: map[string]*syslwrapper.Parameter{
-			"p0": {In: locs[l0], Name: "p0", Type: c12Type(k0, o0)},
-			"p1": {In: locs[l1], Name: "p1", Type: c12Type(1, o1)},
+			n0: {In: locs[l0], Name: n0, Type: c12Type(k0, o0)},
+			n1: {In: locs[l1], Name: n1, Type: c12Type(1, o1)},
 		},
 		Response: map[string]*syslwrapper.Parameter{
 			"ok":  {Name: "ok", Type: c12Type(respKind, false)},
@@ -200,8 +205,8 @@ func Harness_C12_Operation() {
 			c12CheckSchema("param", kind, p.Schema)
 		}
 	}
-	check("p0", locs[l0], o0, k0)
-	check("p1", locs[l1], o1, 1)
+	check(n0, locs[l0], o0, k0)
+	check(n1, locs[l1], o1, 1)
 	nd.Assert("operation:no-extra-parameters", len(op.Parameters) == nparams)
 	if l0 != 3 {
 		nd.Assert("operation:no-request-body", op.RequestBody == nil)
